@@ -92,3 +92,65 @@ impl VSyncCellReader {
         (t.as_secs(), t.subsec_nanos())
     }
 }
+
+use std::future::Future;
+
+use crate::executor::{
+    verif_spawn, verif_spawn_and_forget, VerifCancelToken, VerifPromise, VerifRunnable, VerifStage,
+};
+
+/// `executor::task::Runnable`.
+pub struct VRunnable(VerifRunnable);
+/// `executor::task::Promise<T>`.
+pub struct VPromise<T: Send + 'static>(VerifPromise<T>);
+/// `executor::task::CancelToken`.
+pub struct VCancelToken(VerifCancelToken);
+
+/// Result of `Promise::poll`.
+pub enum VStage<T> {
+    Ready(T),
+    Pending,
+    Cancelled,
+}
+
+impl VRunnable {
+    pub fn run(self) {
+        self.0.run()
+    }
+}
+impl<T: Send + 'static> VPromise<T> {
+    pub fn poll(&self) -> VStage<T> {
+        match self.0.poll() {
+            VerifStage::Ready(v) => VStage::Ready(v),
+            VerifStage::Pending => VStage::Pending,
+            VerifStage::Cancelled => VStage::Cancelled,
+        }
+    }
+}
+impl VCancelToken {
+    pub fn cancel(self) {
+        self.0.cancel()
+    }
+}
+
+/// `executor::task::spawn`.
+pub fn vtask_spawn<F, S>(future: F, schedule_fn: S) -> (VPromise<F::Output>, VRunnable, VCancelToken)
+where
+    F: Future + Send + 'static,
+    F::Output: Send + 'static,
+    S: Fn(VRunnable) + Send + Sync + 'static,
+{
+    let (p, r, c) = verif_spawn(future, move |r, _: ()| schedule_fn(VRunnable(r)), ());
+    (VPromise(p), VRunnable(r), VCancelToken(c))
+}
+
+/// `executor::task::spawn_and_forget`.
+pub fn vtask_spawn_and_forget<F, S>(future: F, schedule_fn: S) -> (VRunnable, VCancelToken)
+where
+    F: Future + Send + 'static,
+    F::Output: Send + 'static,
+    S: Fn(VRunnable) + Send + Sync + 'static,
+{
+    let (r, c) = verif_spawn_and_forget(future, move |r, _: ()| schedule_fn(VRunnable(r)), ());
+    (VRunnable(r), VCancelToken(c))
+}
